@@ -12,7 +12,10 @@ meta["confirmation_by_main_session"] = {
     "demo_clean_rc": verdict.get("demo_clean_rc"), "demo_patched_rc": verdict.get("demo_patched_rc"),
     "confirmed": verdict.get("confirmed"),
 }
-meta.setdefault("checks", {})[verdict["property"] + ":" + verdict["tier"]] = {
+_k = verdict["property"] + ":" + verdict["tier"]
+if _k in meta.setdefault("checks", {}) and meta["checks"][_k].get("caught") != verdict.get("caught"):
+    meta.setdefault("earlier_runs", []).append({_k: meta["checks"][_k]})
+meta["checks"][_k] = {
     "exit_code": verdict.get("check_rc"), "caught": verdict.get("caught"), "seconds": verdict.get("check_s"),
     "lines": verdict.get("check_lines"),
 }
